@@ -463,8 +463,10 @@ class MailboxData(MailboxDataInterface[Message]):
 
     async def cleanup(self) -> None:
         self._maildir.clean()
-        keys = await self._get_keys()
         async with UidList.with_write(self._path) as uidl:
+            # looked up under the lock: the record of a message that another
+            # session appends meanwhile must not be taken for a dead one
+            keys = await self._get_keys()
             for rec in list(uidl.records):
                 key = rec.key
                 info = keys.get(key)
